@@ -78,7 +78,7 @@ CHECKS = {
     ),
     "C07": dict(
         text="Bounded: for every arrow relation over 2-3 components (seeded sample over 4) in universes with a bystander module, a sub-module of a component and prefix-sibling names, both modes, and every import relation over the 4-6 modules: the real DiagramRule passes exactly when the conformance formula holds and its message holds exactly the C03 records of every violated generated rule (two z3 queries per instance over the decision-tree summary); with_base_module(p) equals writing every component as p.name (one relational query, messages included); the generated rule list for every arrow relation over 2-4 components equals the conformance specification (symbolic arrow bits); MultipleRuleApplier over 1-6 appliers with symbolic pass/fail aggregates all failing messages in order.",
-        note="Trusted: SymDiGraph stub (validated), z3, reference formulas of C01/C03. Diagram files are concrete per instance (scratch directory). <= 4 components (property: 6) end-to-end; 6 for the aggregation step.",
+        note="Trusted: SymDiGraph stub (validated), z3, reference formulas of C01/C03. Diagram files are concrete per instance (scratch directory). Full import relation for <= 4 components; 5-6 components with a symbolic window; 6 for the aggregation step.",
         technique=SYMEX,
         ref="4 C07",
     ),
@@ -131,6 +131,7 @@ EXT = {
     "C15": " Plus (scanhist) a scan under another configuration first (module_path, exclusions, regex exclusions, level_limit, externals), then a scan judged by C04's absolute reference; pool entries whose regex matches other and more modules in the second architecture; order part with object layers of mixed kind, object order and definition order both permuted.",
     "C16": " Plus READ pseudo-calls between builder calls (str, layer_mapping, a LayerRule based on the half-built object), the layer_mapping view of every accepted definition, and based_on(<architecture without layers>) in the LayerRule vocabulary.",
     "C17": " Plus one symbolic bit per aliased module (and for the missing module): the alias text is the module's own full name.",
+    "C07": " Plus 5 and 6 components (the property's upper bound) end to end: seeded arrow relations, the import relation concrete where the diagram is satisfied exactly (optionally plus seeded noise) except for a window of 12 symbolic pairs around the components.",
     "C04": " A directory symlink inside the tree (both locations are directories of the tree) is modelled; SymPath also answers stat / lstat / open / read_text from the model.",
 }
 
